@@ -195,6 +195,33 @@ Proof.
 Qed.
 
 (* ------------------------------------------------------------------------------------------------ *)
+(* which file is read: exactly the selected one (the model has no other file to read) *)
+
+Theorem selected_file_is_read :
+  forall envf tbl penv ext filel,
+    (In ext viper_exts ->
+     load_sel_with envf tbl penv (Some (false, ext, filel)) = load_with envf tbl penv filel)
+    /\ (~ In ext viper_exts -> load_sel_with envf tbl penv (Some (false, ext, filel)) = None)
+    /\ load_sel_with envf tbl penv (Some (true, "yaml", filel)) = load_with envf tbl penv filel
+    /\ (ext <> "yaml" -> load_sel_with envf tbl penv (Some (true, ext, filel)) = load_with envf tbl penv [])
+    /\ load_sel_with envf tbl penv None = load_with envf tbl penv [].
+Proof.
+  intros envf tbl penv ext filel. unfold load_sel_with, read_file. repeat split.
+  - intro Hin. apply existsb_eqb_In in Hin. rewrite Hin. reflexivity.
+  - intro Hn. destruct (existsb (String.eqb ext) viper_exts) eqn:He; [|reflexivity].
+    exfalso. apply Hn. apply existsb_eqb_In. exact He.
+  - intro Hne. apply String.eqb_neq in Hne. rewrite Hne. reflexivity.
+Qed.
+
+Example selected_file_is_read_example :
+  load_sel_model [("http.port", "int", "8080")] [] (Some (false, "yml", [("http.port", "9001")]))
+  = Some [("http.port", "9001")]
+  /\ load_sel_model [("http.port", "int", "8080")] [] (Some (false, "", [("http.port", "9001")])) = None
+  /\ load_sel_model [("http.port", "int", "8080")] [] (Some (true, "yml", [("http.port", "9001")]))
+     = Some [("http.port", "8080")].
+Proof. vm_compute. repeat split; reflexivity. Qed.
+
+(* ------------------------------------------------------------------------------------------------ *)
 (* DbConfig.Validate *)
 
 Lemma is_empty_true : forall s, is_empty s = true <-> s = "".
